@@ -38,7 +38,8 @@ Base == {
    structs |-> {"Base"}],
   (* the same with the embedded pointer nil: Code is promoted through a nil pointer, so it is not there *)
   [id |-> "struct:embnil", kind |-> "fstruct", fields |-> << <<"Own", SB("own")>>, <<"ID", IntV(7)>>, <<"Title", SB("ti")>> >>, structs |-> {"Base"}],
-  (* fields of function type: F returns "x"; N and G are nil functions *)
+  (* fields of function type: F returns "x"; N and G are nil functions; PS, PI, PE and the method Boom panic (with a string, a number,
+     an error, a string): there is no element to return, the lookup is an error whatever the panic carries *)
   [id |-> "struct:funcs", kind |-> "fstruct", fields |-> << <<"F", SB("x")>> >>, structs |-> {}],
   (* map[interface{}]string: any key may be asked for, only "a" is there; a slice or hash can never be a key *)
   Mapc("map:vs:a=b", "any", << <<SB("a"), SB("b")>> >>),
@@ -65,7 +66,7 @@ Desc(id) == CHOOSE d \in Containers : d.id = id
 HostKey(id) == [t |-> "go", id |-> id]
 Keys == << SB("a"), SB("zz"), SB("1"), SB(""), IntV(0), IntV(1), IntV(2), IntV(3), IntV(8), IntV(0 - 1), Num(96), Bool(TRUE), Bool(FALSE), Null,
            SB("Name"), SB("Age"), SB("Tags"), SB("Inner"), SB("secret"), SB("Greet"), SB("Nothing"), SB("Two"), SB("Sum"), SB("Rename"),
-           SB("Self"), SB("Hello"), SB("Own"), SB("hidden"), SB("Nope"), SB("k"), IntV(1000000), SB("Wait"), SB("Level"), IntV(300), SB("Own"), SB("ID"), SB("Title"), SB("Code"), SB("Base"), SB("hiddenBase"), SB("F"), SB("N"), SB("G"),
+           SB("Self"), SB("Hello"), SB("Own"), SB("hidden"), SB("Nope"), SB("k"), IntV(1000000), SB("Wait"), SB("Level"), IntV(300), SB("Own"), SB("ID"), SB("Title"), SB("Code"), SB("Base"), SB("hiddenBase"), SB("F"), SB("N"), SB("G"), SB("PS"), SB("PI"), SB("PE"), SB("Boom"),
            HostKey("slice:int:4,5,6"), HostKey("map:ss:k=v"), HostKey("func"), HostKey("unhash"), HostKey("safe:1:str:a"), HostKey("safe:2:num:int:64"), HostKey("num:int:-64"), HostKey("num:int64:-64"), HostKey("num:int8:-64"),
            (* host numbers far outside the window: no container has them as a key or index; the lookup is an error, never a panic *)
            HostKey("huge:1e19"), HostKey("huge:-1e19"), HostKey("huge:1e300"), HostKey("huge:inf"), HostKey("huge:-inf"), HostKey("huge:nan"),
